@@ -6,6 +6,7 @@
 // Output: one line per input line.
 use hyeong::number::big_number::BigNum;
 use hyeong::number::num::Num;
+use hyeong::core::area::{calc, Area};
 use std::cmp::Ordering;
 use std::io::{self, BufRead, Write};
 
@@ -27,6 +28,20 @@ fn num(s: &str) -> Num {
     let u = big(it.next().unwrap());
     let d = big(it.next().unwrap());
     Num::from_big_num(u, d)
+}
+
+// prefix tree syntax: Q <l> <r> = `?`, E <l> <r> = `!`, H<n> = heart of type n, N = empty slot
+fn tree(toks: &mut std::slice::Iter<&str>) -> Area {
+    let t = toks.next().unwrap();
+    if *t == "N" {
+        Area::Nil
+    } else if *t == "Q" || *t == "E" {
+        let l = tree(toks);
+        let r = tree(toks);
+        Area::Val { type_: if *t == "Q" { 0 } else { 1 }, left: Box::new(l), right: Box::new(r) }
+    } else {
+        Area::new(t[1..].parse::<u8>().unwrap())
+    }
 }
 
 fn ord(o: Option<Ordering>) -> &'static str {
@@ -99,6 +114,16 @@ fn run(f: &[String]) -> String {
             "num.is_nan" => format!("{}", num(f[1]).is_nan()),
             "num.eq" => format!("{}", num(f[1]) == num(f[2])),
             "num.cmp" => ord(num(f[1]).partial_cmp(&num(f[2]))).to_string(),
+            "area.calc" => {
+                // area.calc \t <tree tokens space separated> \t <count> \t <values space separated>
+                let tt: Vec<&str> = f[1].split(' ').collect();
+                let a = tree(&mut tt.iter());
+                let count: usize = f[2].parse().unwrap();
+                let vals: Vec<Num> = if f[3].is_empty() { vec![] } else { f[3].split(' ').map(num).collect() };
+                let mut k = 0usize;
+                let r = calc(&a, count, || { let v = if k < vals.len() { vals[k].clone() } else { Num::nan() }; k += 1; Ok(v) });
+                match r { Ok(t) => format!("{} {}", t, k), Err(_) => "ERR".to_string() }
+            }
             "num.roundtrip" => { let a = num(f[1]); let s = a.to_string(); let b = Num::from_string(s.clone()); format!("{} {}", s, (a.is_nan() && b.is_nan()) || a == b) }
             _ => "ERR unknown op".to_string(),
         };
